@@ -1,2 +1,37 @@
-// verification hooks (see /verif/DESIGN.md section 10); compiled only with --features verif-hooks
+// Verification hooks for src/lfu/sampled.rs
 #![allow(missing_docs, dead_code, unused_imports)]
+use super::*;
+
+#[cfg(kani)]
+impl<K: Hash + Eq, KH: KeyHasher<K>, S: BuildHasher> SampledLFU<K, KH, S> {
+    /// arbitrary tracker state: table entries are pushed straight into the index
+    pub(crate) fn verif_from_parts(samples: usize, max_cost: i64, used: i64, kh: KH, hasher: S, n: usize, item: impl Fn(usize) -> (u64, i64)) -> Self {
+        let mut key_costs = HashMap::with_hasher(hasher);
+        let mut i = 0;
+        while i < crate::verif_hooks::spec::NMAX {
+            if i < n {
+                let (k, c) = item(i);
+                key_costs.verif_push(k, c);
+            }
+            i += 1;
+        }
+        SampledLFU { samples, max_cost: AtomicI64::new(max_cost), used, key_costs, kh, marker: Default::default() }
+    }
+
+    pub(crate) fn verif_used(&self) -> i64 {
+        self.used
+    }
+    pub(crate) fn verif_len(&self) -> usize {
+        self.key_costs.len()
+    }
+    pub(crate) fn verif_cost_of(&self, k: u64) -> Option<i64> {
+        self.key_costs.get(&k).copied()
+    }
+    pub(crate) fn verif_samples(&self) -> usize {
+        self.samples
+    }
+}
+
+#[cfg(kani)]
+#[path = "/verif/kani/harness_sampled.rs"]
+mod harness;
